@@ -46,22 +46,29 @@ pub struct Scripted<'a> {
     calls: u64,
     /// (offset, kind, id): after `offset` bytes every call fails
     pub fault: Option<(usize, ErrorKind, u64)>,
+    /// the fault is reported exactly once; afterwards the stream continues
+    pub one_shot: bool,
+    fired: bool,
     pub max_window_inside_line: bool,
     pub chunks_delivered: usize,
 }
 
 impl<'a> Scripted<'a> {
     pub fn new(data: &'a [u8], sched: Schedule) -> Self {
-        Self { data, pos: 0, window_end: 0, sched, next_chunk: 0, calls: 0, fault: None, max_window_inside_line: false, chunks_delivered: 0 }
+        Self { data, pos: 0, window_end: 0, sched, next_chunk: 0, calls: 0, fault: None, one_shot: false, fired: false, max_window_inside_line: false, chunks_delivered: 0 }
     }
     pub fn with_fault(mut self, offset: usize, kind: ErrorKind, id: u64) -> Self {
         self.fault = Some((offset, kind, id));
         self
     }
+    pub fn one_shot(mut self) -> Self {
+        self.one_shot = true;
+        self
+    }
     fn limit(&self) -> usize {
         match self.fault {
-            Some((off, _, _)) => off.min(self.data.len()),
-            None => self.data.len(),
+            Some((off, _, _)) if !(self.one_shot && self.fired) => off.min(self.data.len()),
+            _ => self.data.len(),
         }
     }
     fn window(&mut self) -> io::Result<(usize, usize)> {
@@ -71,7 +78,8 @@ impl<'a> Scripted<'a> {
         }
         if self.window_end <= self.pos {
             if let Some((off, kind, id)) = self.fault {
-                if self.pos >= off {
+                if self.pos >= off && !(self.one_shot && self.fired) {
+                    self.fired = true;
                     return Err(injected(kind, id));
                 }
             }
